@@ -37,6 +37,7 @@ def pairs : List Nat → List (Nat × Nat)
 * `part <L> <size>` → `s-e,s-e,…` of `calc_parts` for a contig of length `L`, or `err`
 * `init <bf> <batch> <hasNames 0|1> G <gvcf id>* V (<id> <n_samples>)* F (<n> <floor(log(n, bf)) as computed by Python>)*`
   → dump of the constructed plan, or `err` (ValueError)
+* `setbatch <len(import intervals)> <value>` → dump after `combiner.gvcf_batch_size = value`, plus ` batch=<effective>`
 * `step` / `reload` → dump after `step()` / after `save()`; `load()`
 * `ivrt (<startContig> <startPos> <endContig> <endPos> <includesStart> <includesEnd>)*` → the import intervals after
   `save()`; `load()`, as `c:p-c:p` followed by `[`/`(` and `]`/`)` -/
@@ -68,6 +69,10 @@ def stepLine (st : St) (line : String) : St × String :=
     match nats? rest with
     | some ns => (st, joinWith "," ((reloadIntervals (ivsOf ns)).map showIv))
     | none => (st, "bad-op")
+  | ["setbatch", nIv, v] =>
+    match st.plan, nIv.toNat?, v.toNat? with
+    | some p, some nIv, some v => let p' := setBatch nIv v p; ({ st with plan := some p' }, dump p' ++ s!" batch={p'.batch}")
+    | _, _, _ => (st, "err")
   | ["step"] =>
     match st.plan with
     | some p => let p' := step (flogWith st.anomalies p.bf) p; ({ st with plan := some p' }, dump p')
